@@ -10,8 +10,8 @@ ROOT = os.path.dirname(os.path.dirname(os.path.abspath(__file__)))
 
 def key(p):
     n = os.path.basename(p)
-    m = re.match(r'C(\d+)-(r2-)?(\d+)', n)
-    return (int(m.group(1)), 1 if m.group(2) else 0, int(m.group(3)))
+    m = re.match(r'C(\d+)-(?:r(\d)-)?(\d+)', n)
+    return (int(m.group(1)), int(m.group(2) or 1), int(m.group(3)))
 
 
 def clip(s, n):
